@@ -65,6 +65,13 @@ def _run_job(seam, job, state):
             log = list(sys.modules["simutil"].LOG)
             del sys.modules["simutil"].LOG[:]
         seam.event("ret", [i, out, log])
+        if op["op"] == "set_store" and out[0] != "ok":
+            # without its store the process must not go on (dds would silently fall back to its default store, a fixed
+            # directory shared by every run): the remaining operations fail with the same error
+            for j in range(i + 1, len(job)):
+                seam.event("invoke", j)
+                seam.event("ret", [j, out, None])
+            return
 
 
 def child_main(rfd, wfd, proc_id, job, gate_root, seed_hex, incarnation=0, worker_pipes=None):
